@@ -367,13 +367,15 @@ def check_predicate_builders(cx, rep):
         where = f.qname
         pushes = [ev for ev in fw.events if ev.kind == 'mcall' and ev.method == 'push']
         seen = []
+        from ..facts import Facts
+        facts_ = Facts(cx)
         for ev in pushes:
             a = ev.args[0]
-            # syn::parse2(quote!{..}).unwrap()
+            # syn::parse2(quote!{..}).unwrap(), possibly bound to a variable first
             tmpl = None
-            for n in __import__('sa.syn', fromlist=['walk_json']).walk_json(a):
-                if n.get('k') == 'Macro' and 'tmpl' in n.get('mac', {}):
-                    tmpl = gm.template_of(n['mac'])
+            lv = cx.hg(f).leaves(a, ev.scope, ev.ctx, fw)
+            if len(lv) == 1 and lv[0].kind == 'tmpl':
+                tmpl = lv[0].tmpl
             if tmpl is None:
                 rep.bad('BOUND-USE', where, 'push', 'a predicate is pushed that is not built from a template: `%s`' % es(a)[:80], f.file, ev.line)
                 continue
@@ -399,9 +401,16 @@ def check_predicate_builders(cx, rep):
             if ok:
                 lhs_s, rt, loops, guards, ev, tmpl = seen[0]
                 lt = tmpl.hole_term(lhs_s[1:]) if lhs_s.startswith('#') else None
-                ok = (rt == ('param', 'bound_trait') and len(loops) == 1 and es(analyse_iter(loops[0]['iter']).base) == 'params'
-                      and len(guards) == 1 and guards[0]['k'] == 'iflet' and guards[0]['pol'] and pat_s(guards[0]['pat']).startswith('GenericParam::Type(')
-                      and isinstance(lt, tuple) and lt[0] == 'field' and lt[2] == 'ident')
+                pn = [p_[0] for p_ in f.params()]
+                L = loops[0]['id'] if len(loops) == 1 else None
+                info = analyse_iter(loops[0]['iter']) if L is not None else None
+                at = [x for x in facts_.atoms(ev.ctx, fw) if x[0] not in ('loop', 'cfg')]
+                ok = (len(pn) == 2 and rt == ('param', pn[1]) and L is not None and not info.adaptors and not info.rev
+                      and tm.term(info.base, loops[0]['scope']) == ('param', pn[0])
+                      and at == [('is', ('elem', L), 'GenericParam::Type', True)]
+                      and lt == ('field', ('payload', 'GenericParam::Type', 0, ('elem', L)), 'ident')
+                      # every parameter is visited: nothing leaves the loop early
+                      and not [e2 for e2 in fw.events if e2.kind == 'exit' and e2.how in ('break', 'return') and any(c_.get('id') == L for c_ in e2.ctx)])
             if ok:
                 rep.ok('BOUND-USE', where + '|type-params-only', {'template': seen[0][5].text(), 'guard': ctx_s(tuple(seen[0][3]))})
             else:
